@@ -117,7 +117,7 @@ def ev_checked(node, x, p, t, V, jitter=None):
         raise ref.Undefined("range")
     # underflow is a representable-range effect too: sympy re-arranges the tree, and an intermediate of the re-arranged form may
     # overflow where the written form underflows to 0 (e.g. (s/(k*s^15))^565902); such points are not in the finite domain
-    if (v != 0.0 and abs(v) < 1e-150) or (v == 0.0 and k in ("*", "/", "^", "exp") and all(a != 0.0 for a in args[:1])):
+    if (v != 0.0 and abs(v) < 1e-150) or (v == 0.0 and ((k == "*" and all(a != 0.0 for a in args)) or (k in ("/", "^") and args[0] != 0.0) or k == "exp")):
         raise ref.Undefined("underflow")
     return v
 
